@@ -52,9 +52,7 @@ func NewSimpleURL(u *url.URL) (SimpleURL, error) {
 		case strings.HasPrefix(name, "fields[") && strings.HasSuffix(name, "]") && len(name) > 8:
 			resType := name[7 : len(name)-1]
 
-			if len(values.Get(name)) > 0 {
-				sURL.Fields[resType] = parseCommaList(values.Get(name))
-			}
+			sURL.Fields[resType] = parseCommaList(values.Get(name))
 		case strings.HasPrefix(name, "page[") && strings.HasSuffix(name, "]") && len(name) > 6:
 			arg := name[5 : len(name)-1]
 
